@@ -70,6 +70,10 @@ CHECKS = {
     technique="exhaustive enumeration of widths x bitlengths x values and of packer schemas x all schema values on the real code, plus witness-space enumeration of the enforced width",
     text="to_bits(w)/from_bits round trip, assert_positive(w), check_positive(w) for every width 1..6 with global bitlength 3/4/6 on every value of [-2, 2^w+1]; with error checking off and all witness choices enumerated the system is satisfiable exactly for 0 <= v < 2^w (check_positive: result forced to the sign). Packing: every schema of the grammar Bool | IntMod(1..5) | List(0..2 items) | Repeat(s, 0..2) to depth 1 (quick) / 2 (thorough) x ALL values x {plain, integer-typed secret, boolean-typed secret}: unpack(pack(v)) == v, bitlen() == number of bits, out-of-range plain values rejected.",
     note="Schemas with more than 64 values are not enumerated."),
+ "C17": dict(cat="model_checking", design="3/C17",
+    technique="exhaustive enumeration of argument/return structures x bodies x call sequences on the real code with the recording backend; witness-space enumeration for the output ties",
+    text="21 argument shapes (scalars int/bool/float/str/None/secret, nested lists, tuples and dicts to depth 2, empty containers) alone and in pairs x 6 bodies (identity, product, comparisons, constant, mixed structure with plain members, the same wire twice) x call sequences of length 1..3 in one run: the ordered list of public variables created by each call equals flatten(numeric arguments) ++ flatten(secret results), nothing else becomes public, the returned structure equals the undecorated function on plain values, every output variable is uniquely determined by the computed wire (all witness choices enumerated), keyword arguments raise ValueError without creating anything.",
+    note="Bodies avoid division so that the known quotient finding does not interfere with the uniqueness oracle."),
 }
 
 NOT_YET = {}
